@@ -11,8 +11,8 @@ def run(cx):
     E.read_write(cx)
     E.column_agreement(cx)
     # arguments shared by all rows are not rebound in the row loops (figure paths are built from them per row)
-    E.loop_independence(cx, E.BEADS, ['beads_samples', 'mef_transform_fxns', 'mef_outputs'])
-    E.loop_independence(cx, E.SAMPLES, ['samples'])
+    E.loop_independence(cx, E.BEADS)
+    E.loop_independence(cx, E.SAMPLES)
     for q in (E.BEADS, E.SAMPLES):
         fn = Fn(cx, q)
         for p in ('base_dir', 'plot_dir', 'plot'):
